@@ -16,14 +16,25 @@ try:
     shutil.rmtree(os.path.join(h, 'src'), ignore_errors=True)
     os.makedirs(os.path.join(h, '.cargo'), exist_ok=True)
     shutil.copytree(os.path.join(V, 'harness', 'src'), os.path.join(h, 'src'))
+    # snapshot of the machinery (check, vlib, spec, known findings): later edits in /verif do not reach a run in flight
+    SV = os.path.join(wt, '_v')
+    shutil.rmtree(SV, ignore_errors=True)
+    os.makedirs(SV)
+    for x in ('vlib', 'spec'):
+        shutil.copytree(os.path.join(V, x), os.path.join(SV, x), ignore=shutil.ignore_patterns('__pycache__', 'states', '*.st'))
+    for x in ('check', 'known_findings.json', 'properties.jsonl'):
+        shutil.copy(os.path.join(V, x), os.path.join(SV, x))
+
     open(os.path.join(h, 'Cargo.toml'), 'w').write(open(os.path.join(V, 'harness', 'Cargo.toml')).read().replace('/repo/etherparse', os.path.join(wt, 'etherparse')))
     shutil.copy(os.path.join(V, 'harness', 'Cargo.lock'), os.path.join(h, 'Cargo.lock'))
     shutil.copy(os.path.join(V, 'harness', '.cargo', 'config.toml'), os.path.join(h, '.cargo', 'config.toml'))
     b = subprocess.run(['cargo', 'build', '--offline', '--quiet'], cwd=h, capture_output=True, text=True)
+    if 'C01' in checks and b.returncode == 0:
+        b = subprocess.run(['cargo', 'build', '--offline', '--quiet', '--release'], cwd=h, capture_output=True, text=True)
     assert b.returncode == 0, 'harness build failed:\n' + b.stderr[-2000:]
-    env = dict(os.environ, VERIF_DEV_BIN=os.path.join(h, 'target', 'debug', 'drive'), VERIF_DEV_WORK=os.path.join(wt, '_work'), VERIF_DEV_EVID=os.path.join(wt, '_evid'), VERIF_DEV_REPO=wt)
+    env = dict(os.environ, VERIF_DEV_BIN=os.path.join(h, 'target', 'debug', 'drive'), VERIF_DEV_BIN_RELEASE=os.path.join(h, 'target', 'release', 'drive') if 'C01' in checks else '', VERIF_DEV_WORK=os.path.join(wt, '_work'), VERIF_DEV_EVID=os.path.join(wt, '_evid'), VERIF_DEV_REPO=wt)
     for c in checks:
-        p = subprocess.run([os.path.join(V, 'check'), c, '--tier', 'quick'], cwd=V, capture_output=True, text=True, env=env)
+        p = subprocess.run([os.path.join(SV, 'check'), c, '--tier', 'quick'], cwd=SV, capture_output=True, text=True, env=env)
         viol = [l for l in p.stdout.splitlines() if l.startswith('VIOLATION') or l.startswith('  ') or l.startswith('TOOL')]
         res[c] = {'exit': p.returncode, 'lines': viol[:6]}
         if p.returncode != 0:
